@@ -351,9 +351,9 @@ def plans(tier, seed):
         # ... and seeded samples of longer bodies: control-flow heavy (few leaves) and mixed
         P.append(("ctl-sim", dict(types=["u8"], ops=["<", "+"], unary=(), stmts=("let", "set", "if"), nodes=22,
                                   stack=2, locals_=1, params=2, frames=2, lits=(0, 2), litmax=False, minnodes=13),
-                  "num=500"))
+                  "num=1200"))
         P.append(("stmt-sim", dict(types=n4 + ["i32"], stmts=("let", "set", "cset", "if"), nodes=14, stack=3,
-                                   locals_=2, params=2, frames=2, lits=(0, 2)), "num=350"))
+                                   locals_=2, params=2, frames=2, lits=(0, 2)), "num=900"))
     else:
         P.append(("expr5-all", dict(types=n4 + ["i32", "u32"], nodes=5, stack=2, wide=True, lits=(0, 1, 2)), None))
         for t in n4 + ["i32"]:
@@ -375,11 +375,10 @@ def plans(tier, seed):
 
 
 def generate(ctx, name, kw, mode, workers):
+    """run TLC for one plan; the programs are read lazily from the output file (r.hists())"""
     cfg = gen_cfg(**kw)
-    r = ctx.tlc(AREA, "ArcGen", "%s.cfg" % name, files={"%s.cfg" % name: cfg}, tag="gen_" + name, workers=workers,
-                simulate=mode, depth=(kw["nodes"] * 2 + 6) if mode else None, timeout=1500, heap="6g")
-    progs = list(r.hists())
-    return r, progs
+    return ctx.tlc(AREA, "ArcGen", "%s.cfg" % name, files={"%s.cfg" % name: cfg}, tag="gen_" + name, workers=workers,
+                   simulate=mode, depth=(kw["nodes"] * 2 + 6) if mode else None, timeout=1500, heap="4g")
 
 
 # ----------------------------------------------------------------------------- verdicts
@@ -472,92 +471,135 @@ def cross_check(progs):
 
 def run(ctx):
     thorough = ctx.tier == "thorough"
-    workers = 6
     rnd = random.Random(ctx.seed)
-    progs = []
+    pl = plans(ctx.tier, ctx.seed)
+    ctx.spec_copy(AREA)
+    results = {}
+
+    def one(item):
+        name, kw, mode = item
+        results[name] = generate(ctx, name, kw, mode, 2 if not thorough else 3)
+
+    # three generator runs at a time (JVM start-up dominates the small ones)
+    from concurrent.futures import ThreadPoolExecutor
+    with ThreadPoolExecutor(max_workers=3) as ex:
+        list(ex.map(one, pl))
+
     seen = set()
     gens = []
     states = trans = 0
-    exhaustive_programs = 0
-    bad_texts = []
-    for name, kw, mode in plans(ctx.tier, ctx.seed):
-        r, recs = generate(ctx, name, kw, mode, workers)
-        new = 0
+    total = {"programs": 0, "exhaustive": 0, "checked": 0}
+    summ = {}
+    found = []
+    rejected = []
+    bad_texts = set()
+    fuzz_base = []
+    samples = []
+    harness_wall = 0.0
+    next_id = [0]
+
+    def flush(batch, tag):
+        nonlocal harness_wall
+        if not batch:
+            return
+        s1, rows, wall = run_harness(ctx, batch, tag, workers=6)
+        harness_wall += wall
+        for k, v in s1.items():
+            if isinstance(v, int) and k != "summary":
+                summ[k] = summ.get(k, 0) + v
+        stats = {"rejected_generated": rejected}
+        for f in analyse(ctx, batch, rows, stats):
+            # keep the record small: everything but the derived variants
+            found.append(f)
+
+    batch = []
+    nbatch = 0
+    for name, kw, mode in pl:
+        r = results[name]
+        recs = list(r.hists())
+        if not recs:
+            raise vlib.Inconclusive("generator plan %s produced no program" % name)
         recs.sort(key=lambda x: x["src"])        # TLC's print order depends on worker scheduling
+        new = 0
         for rec in recs:
             if rec["src"] in seen:
                 continue
             seen.add(rec["src"])
-            rec["id"] = len(progs)
+            rec["id"] = next_id[0]
+            next_id[0] += 1
             rec["kind"] = "sem"
             rec["plan"] = name
-            progs.append(rec)
             new += 1
-            for b in rec.get("bad", []):
-                if b != rec["src"]:
-                    bad_texts.append(b)
-        if not recs:
-            raise vlib.Inconclusive("generator plan %s produced no program" % name)
+            for b in rec.pop("bad", []):
+                if b != rec["src"] and (len(bad_texts) < (6000 if not thorough else 60000) or rnd.random() < 0.05):
+                    bad_texts.add(b)
+            batch.append(rec)
+        total["checked"] += cross_check(batch[-new:] if new else [])
+        if new:
+            fuzz_base += [x["src"] for x in rnd.sample(batch[-new:], min(new, 60 if not thorough else 400))]
+            samples.append({"plan": name, "src": batch[-1]["src"], "args": batch[-1]["args"][:3],
+                            "o": batch[-1]["o"][:3], "v": batch[-1]["v"][:3]})
         states += r.distinct
         trans += r.generated
+        total["programs"] += new
         if not mode:
-            exhaustive_programs += new
-        gens.append({"plan": name, "mode": mode or "bfs", "programs": len(recs), "new": new, "distinct_states": r.distinct,
-                     "generated_states": r.generated, "wall_s": round(r.wall, 1)})
-    n_checked = cross_check(progs)
+            total["exhaustive"] += new
+        gens.append({"plan": name, "mode": mode or "bfs", "programs": len(recs), "new": new,
+                     "distinct_states": r.distinct, "generated_states": r.generated, "wall_s": round(r.wall, 1)})
+        if len(batch) >= 60000:
+            flush(batch, "b%d" % nbatch)
+            nbatch += 1
+            batch = []
+    flush(batch, "b%d" % nbatch)
     # no-crash inputs: ill-typed variants printed by TLC + seeded token-level mutations
-    bad_texts = sorted(set(bad_texts) - seen)
-    rnd.shuffle(bad_texts)
-    bad_texts = bad_texts[:4000 if not thorough else 40000]
-    base = rnd.sample(progs, min(len(progs), 600 if not thorough else 6000))
+    bad_list = sorted(bad_texts - seen)
+    rnd.shuffle(bad_list)
+    bad_list = bad_list[:4000 if not thorough else 40000]
     fuzz = []
-    for p in base:
-        fuzz += token_mutants(p["src"], rnd, 3)
-    nocrash = [{"id": len(progs) + i, "kind": "nocrash", "src": s, "nodes": 0} for i, s in enumerate(bad_texts + fuzz)]
-    everything = progs + nocrash
-    summ, rows, wall = run_harness(ctx, everything, "main", workers=workers)
-    stats = {"rejected_generated": []}
-    found = analyse(ctx, everything, rows, stats)
-    if stats["rejected_generated"]:
-        s, e = stats["rejected_generated"][0]
+    for src in fuzz_base:
+        fuzz += token_mutants(src, rnd, 3)
+    nocrash = [{"id": next_id[0] + i, "kind": "nocrash", "src": t, "nodes": 0} for i, t in enumerate(bad_list + fuzz)]
+    flush(nocrash, "nocrash")
+    if rejected:
+        src, err = rejected[0]
         raise vlib.Inconclusive("generator drift: %d generated program(s) of the fragment were rejected by the real "
-                                "front end, e.g.\n%s\n%s" % (len(stats["rejected_generated"]), s, e))
+                                "front end, e.g.\n%s\n%s" % (len(rejected), src, err))
     # one report per signature, smallest program first; every reported program is re-run from scratch
     found.sort(key=lambda x: (x[4], len(x[2]["src"])))
     first = {}
     for sig, what, p, r, n in found:
         first.setdefault(sig, (what, p, r))
-    unexpected = [s for s in first if s.startswith("C19 unexpected")]
-    rest = sorted((s for s in first if not s.startswith("C19 unexpected")),
-                  key=lambda s: ("not normalised" in s, s.count("+"), s))
+    unexpected = [x for x in first if x.startswith("C19 unexpected")]
+    rest = sorted((x for x in first if not x.startswith("C19 unexpected")),
+                  key=lambda x: ("not normalised" in x, x.count("+"), x))
     keep = unexpected[:5] + rest            # vlib reports at most 8 unknown signatures per run
     if keep:
-        again = [first[s][1] for s in keep]
+        again = [first[x][1] for x in keep]
         summ2, rows2, _ = run_harness(ctx, again, "repro", workers=2)
         bad_ids = {r["id"] for r in rows2}
-        for s in keep:
-            what, p, r = first[s]
+        for x in keep:
+            what, p, r = first[x]
             if p["id"] not in bad_ids:
-                raise vlib.Inconclusive("finding did not reproduce on a re-run: %s" % s)
-            ctx.report(s, what, {"program": {k: p[k] for k in p if k not in ("bad",)}, "row": r,
+                raise vlib.Inconclusive("finding did not reproduce on a re-run: %s" % x)
+            ctx.report(x, what, {"program": {k: p[k] for k in p if k not in ("bad",)}, "row": r,
                                  "cmd": "python3 tools/verif.py replay C19 <this file>"})
     by_sig = {}
     for sig, _, _, _, _ in found:
-        by_sig[sig.split("[")[0].strip() + (" [" + sig.split("[")[1] if "not normalised" in sig else "")] = \
-            by_sig.get(sig.split("[")[0].strip() + (" [" + sig.split("[")[1] if "not normalised" in sig else ""), 0) + 1
-    samples = [{"src": p["src"], "args": p["args"][:3], "o": p["o"][:3], "v": p["v"][:3]} for p in progs[:1] + progs[-1:]]
+        k = sig if "not normalised" in sig else sig.split("[")[0].strip()
+        by_sig[k] = by_sig.get(k, 0) + 1
     cov = {
         "states": states, "transitions": trans,
-        "traces_validated_against_impl": summ["accepted"],
-        "programs_generated": len(progs), "programs_bounded_exhaustive": exhaustive_programs,
-        "cases_run": summ["cases"], "cases_value": summ["values"], "cases_trap": summ["traps"],
-        "cases_undecided_by_language_spec": summ["undecided"],
-        "oracle_cross_checked_cases": n_checked,
-        "nocrash_inputs": summ["nocrash"], "nocrash_rejected_with_diagnostics": summ["nocrash_rejected"],
-        "nocrash_accepted": summ["nocrash_accepted"], "panics": summ["panics"],
-        "programs_with_mismatch": summ["mismatch_programs"], "mismatch_classes": by_sig,
-        "generator_runs": gens, "samples": samples, "exhaustive": False,
-        "harness_wall_s": round(wall, 1),
+        "traces_validated_against_impl": summ.get("accepted", 0),
+        "programs_generated": total["programs"], "programs_bounded_exhaustive": total["exhaustive"],
+        "cases_run": summ.get("cases", 0), "cases_value": summ.get("values", 0), "cases_trap": summ.get("traps", 0),
+        "cases_undecided_by_language_spec": summ.get("undecided", 0),
+        "oracle_cross_checked_cases": total["checked"],
+        "nocrash_inputs": summ.get("nocrash", 0), "nocrash_rejected_with_diagnostics": summ.get("nocrash_rejected", 0),
+        "nocrash_accepted": summ.get("nocrash_accepted", 0),
+        "panics": summ.get("panics", 0),
+        "programs_with_mismatch": summ.get("mismatch_programs", 0), "mismatch_classes": by_sig,
+        "generator_runs": gens, "samples": samples[:3], "exhaustive": False,
+        "harness_wall_s": round(harness_wall, 1),
         "rule": "every program ArcGen.tla builds with the token budgets listed in generator_runs (breadth-first = all of "
                 "them, simulate = seeded sample), on all boundary argument tuples; result compared on the low Bits(ret) "
                 "bits, traps compared as an outcome class",
@@ -565,7 +607,7 @@ def run(ctx):
     return ctx.finish("model_checking", cov, [
         "TLC/SANY 1.8.0; wazero interpreter as the WASM semantics; ArcSem.tla is my reading of arc/docs/spec.md",
         "fragment only: i64/u64/f32/f64 arithmetic, `^` and other host math, stateful variables, series, strings, "
-        "channels and loops are NOT decided",
+        "channels, function calls and loops are NOT decided",
         "narrow arguments are passed sign/zero-extended, the result is read on its low bits (as arc's own runtime does)",
     ])
 
